@@ -83,4 +83,8 @@ def run(res, tier):
         res.floor("WR-2", "C02 shape functions with column accessors", n2, 20)
         ns = sib1(p, res)
         res.floor("SIB-1", "assign/out-of-place pairs", ns, 5)
+        from . import sign
+        res.rule("SIGN-1", "in res = a - b a write from `b` alone negates, a write from `a` alone does not, a write from both is a subtraction with a before b (add family: no negation, both -> add)")
+        ns = sign.check(p, res, "SIGN-1", ("poulpy_core::api::operations", "poulpy_core::operations", "poulpy_cpu_ref::reference::vec_znx"))
+        res.floor("SIGN-1", "add/sub family functions", ns, 4)
         res.fn_count += nc + n_ow + n2
